@@ -170,3 +170,78 @@ Theorem C13_total :
   unmarshal T Hd json_ok cfg t0 inlen w <> Diverge.
 Proof. exact unmarshal_total. Qed.
 Print Assumptions C13_total.
+
+(* ---- restore entry points (MerklizerFromBytes with / without options, zero-value
+   UnmarshalBinary, encoding/gob) ---- *)
+
+(* MerklizerFromBytes(blob, opts) = UnmarshalBinary on a Merklizer carrying just the options
+   (presetting the default hasher = defaulting a nil hasher inside), and the option-less
+   entry points all coincide *)
+Theorem C13_restore_entry_points_agree :
+  forall (L : Type) (T : tparams) (Hd : hasher) (json_ok : string -> bool) (inlen : Z) (w : wire),
+  (forall o : ropts L,
+     from_bytes T Hd json_ok o inlen w =
+     (x <- unmarshal T Hd json_ok (o_hasher o) (o_tree o) inlen w ;; Ok (x, o_loader o))) /\
+  @from_bytes L T Hd json_ok (mkropts None None None) inlen w = unmarshal_zero T Hd json_ok inlen w /\
+  @gob_decode L T Hd json_ok inlen w = unmarshal_zero T Hd json_ok inlen w.
+Proof. exact entry_points_agree_all. Qed.
+Print Assumptions C13_restore_entry_points_agree.
+
+(* the hasher of a restored merklizer is never nil: Hasher() is the WithHasher option, else
+   the package default at restore time, and MkValue(v).MtEntry() hashes with it; the
+   WithDocumentLoader option is kept, so ResolveDocPath uses it (else the package default) *)
+Theorem C13_hasher_defaulted :
+  forall (L : Type) (T : tparams) (Hd : hasher) (json_ok : string -> bool) (o : ropts L)
+         (inlen : Z) (w : wire) (r : restored L),
+  from_bytes T Hd json_ok o inlen w = Ok r ->
+  r_hasher r = hasher_or Hd (o_hasher o) /\
+  (forall v, r_mk_value r v = mk_value_entry (hasher_or Hd (o_hasher o)) v) /\
+  snd r = o_loader o /\
+  forall dflt, effective_loader dflt r = match o_loader o with Some l => l | None => dflt end.
+Proof. exact (@restored_hasher_and_loader). Qed.
+Print Assumptions C13_hasher_defaulted.
+
+Theorem C13_hasher_defaulted_zero :
+  forall (T : tparams) (Hd : hasher) (json_ok : string -> bool) (cfg : option hasher) (t0 : option tree)
+         (inlen : Z) (w : wire) (x : mzx),
+  unmarshal T Hd json_ok cfg t0 inlen w = Ok x ->
+  mz_hasher (x_mz x) = hasher_or Hd cfg /\
+  forall v, (y <- mz_mk_value (x_mz x) v ;; value_mt_entry y) = mk_value_entry (hasher_or Hd cfg) v.
+Proof. exact hasher_defaulted. Qed.
+Print Assumptions C13_hasher_defaulted_zero.
+
+(* the round trip through every entry point: all of them give the same merklizer *)
+Theorem C13_roundtrip_entry_points :
+  forall (L : Type) (T : tparams) (json_ok : string -> bool) (Hd h : hasher) (es : list rdf_entry) (m0 : mz),
+  Forall (entry_uses h) es ->
+  merklize_from_entries T Hd h None es = Ok m0 ->
+  forall pi : list (Z * rdf_entry), Permutation pi (mz_entries m0) ->
+  forall (src comp : string) (safe : bool) (Hd' : hasher) (cfg : option hasher) (l : option L) (inlen : Z),
+  hasher_or Hd' cfg = h ->
+  json_ok comp = true ->
+  Z.of_nat (List.length (mz_entries m0)) <= inlen ->
+  exists w, marshal T pi (mkmzx m0 src comp safe) = Ok w /\
+    let X := mkmzx (mkmz pi (mz_tree m0) h) src comp safe in
+    from_bytes T Hd' json_ok (mkropts cfg None l) inlen w = Ok (X, l) /\
+    (cfg = None ->
+       @unmarshal_zero L T Hd' json_ok inlen w = Ok (X, None) /\
+       @gob_decode L T Hd' json_ok inlen w = Ok (X, None) /\
+       @from_bytes L T Hd' json_ok (mkropts None None None) inlen w = Ok (X, None)).
+Proof. exact (@roundtrip_entry_points). Qed.
+Print Assumptions C13_roundtrip_entry_points.
+
+(* seeded variants are refuted in the model: C13-j (a nil hasher is no longer defaulted:
+   MkValue(..).MtEntry() dereferences nil), C13-f (the loader option is forgotten: another
+   loader resolves the document's contexts) *)
+Theorem C13_variant_j_refuted :
+  exists v, mk_value_variant_j None v = Panic "nil-hasher"%string.
+Proof. exact variant_j_refuted. Qed.
+Print Assumptions C13_variant_j_refuted.
+
+Theorem C13_variant_f_refuted :
+  exists (o : ropts nat) (dflt : nat), forall T Hd json_ok inlen w r r',
+    from_bytes T Hd json_ok o inlen w = Ok r ->
+    from_bytes_variant_f T Hd json_ok o inlen w = Ok r' ->
+    effective_loader dflt r <> effective_loader dflt r'.
+Proof. exact variant_f_refuted. Qed.
+Print Assumptions C13_variant_f_refuted.
